@@ -93,6 +93,8 @@ sx_enum! {
         Nest { accs: Vec<Access>, at: u32 },
         ReplaceArch { a: u8, cap: Option<u32> },
         AuditAll,
+        Bulk { a: u8, n: u32, p: u64 },
+        BulkDestroy { a: u8, stride: u32, phase: u32 },
     }
 }
 
@@ -129,6 +131,8 @@ impl Op {
             Op::Nest { .. } => "Nest",
             Op::ReplaceArch { .. } => "ReplaceArch",
             Op::AuditAll => "AuditAll",
+            Op::Bulk { .. } => "Bulk",
+            Op::BulkDestroy { .. } => "BulkDestroy",
         }
     }
     pub fn tag(&self) -> u64 {
@@ -152,6 +156,8 @@ impl Op {
             Op::Nest { .. } => 17,
             Op::ReplaceArch { .. } => 18,
             Op::AuditAll => 19,
+            Op::Bulk { .. } => 20,
+            Op::BulkDestroy { .. } => 21,
         }
     }
 }
